@@ -1,5 +1,6 @@
 # -*- coding: utf-8 -*-
 """C01 - array data is stored and returned exactly: type, shape, values (DESIGN 4/C01)."""
+import gc
 import itertools
 import os
 
@@ -710,11 +711,11 @@ class Run:
                 self.close()
                 self.open("a")
                 self.fetch()
-                self.check("final-rw", reads=allreads)
+                self.check("final-rw", reads=("slice", "direct"))
                 self.close()
                 self.open("r")
                 self.fetch()
-                self.check("final-ro", reads=allreads)
+                self.check("final-ro", reads=("slice", "array", "ell"))
                 self.close()
                 self.raw_check()
             except _Abort:
@@ -839,10 +840,20 @@ LONG_EXT = [0, 1, 700, 1023, 1024, 1025, 1250, 2500, 5000, 10001, 20000]
 LONG_APP = [1, 300, 1023, 1024, 1500, 3000]
 
 
+def _lays(dt, with_list):
+    """input container / memory layout; 'u' ('U' array) only means something for text, 'list' for list-typed dtypes"""
+    pool = ["c", "c", "f", "s"]
+    if dt == "str":
+        pool += ["u", "u"]
+    if with_list and dt in ("int64", "float64", "bool", "str"):
+        pool += ["list", "list"]
+    return st.sampled_from(pool)
+
+
 @st.composite
 def case_strategy(draw):
     dt = draw(st.sampled_from(DTYPES + ["str", "float64", "float32"]))
-    long_ = draw(st.integers(0, 4)) == 0
+    long_ = draw(st.integers(0, 3)) == 0
     la = None
     if not long_:
         rank = draw(st.sampled_from([1, 1, 2, 2, 3, 3, 4]))
@@ -864,13 +875,13 @@ def case_strategy(draw):
               "pre": draw(st.integers(0, 5)) == 0}
     if how == "data":
         create["dtarg"] = draw(st.sampled_from(["none", "none", "np", "nix"]))
-        create["lay"] = draw(st.sampled_from(["c", "c", "f", "s", "list", "u"]))
+        create["lay"] = draw(_lays(dt, True))
     else:
-        create["dtarg"] = draw(st.sampled_from(["np", "nix", "default"] if dt == "float64" else ["np", "nix"]))
+        create["dtarg"] = draw(st.sampled_from(["default", "default", "np", "nix"] if dt == "float64" else ["np", "nix"]))
         if how == "set":
-            create["lay"] = draw(st.sampled_from(["c", "c", "f", "s", "u"]))
+            create["lay"] = draw(_lays(dt, False))
     compr = "".join(draw(st.sampled_from(COMPR)) for _ in range(3))
-    nsteps = draw(st.integers(0, 6))
+    nsteps = draw(st.sampled_from([0, 1, 2, 2, 3, 3, 4, 4, 5, 6]))
     steps = []
     cur = list(shape)
     for _ in range(nsteps):
@@ -883,12 +894,12 @@ def case_strategy(draw):
         if op == "write":
             s["how"] = draw(st.sampled_from(["wd", "set", "ell"]))
             if s["how"] != "wd":
-                s["lay"] = draw(st.sampled_from(["c", "f", "s", "u"]))
+                s["lay"] = draw(_lays(dt, False))
         elif op == "assign":
             s["e"] = draw(expr_for(cur))
             s["v"] = draw(st.sampled_from(["exact", "exact", "scalar", "py"]))
             if s["v"] == "exact":
-                s["lay"] = draw(st.sampled_from(["c", "c", "f", "s", "u"]))
+                s["lay"] = draw(_lays(dt, False))
         elif op == "read":
             if 0 not in cur and draw(st.booleans()):
                 s["e"] = draw(scalar_expr_for(cur))
@@ -909,7 +920,7 @@ def case_strategy(draw):
             s["n"] = n
             if axis == 0 and draw(st.booleans()):
                 s["axis_default"] = True
-            s["lay"] = draw(st.sampled_from(["c", "c", "f", "s", "u", "list"]))
+            s["lay"] = draw(_lays(dt, True))
             cur[axis] += n
         elif op == "resize":
             ext = list(cur)
@@ -946,9 +957,9 @@ GRID_TEMPLATES = [
 ]
 
 
-def grid_cases():
+def grid_cases(tier):
     for t, (dt, how, triple) in itertools.product(
-            range(len(GRID_TEMPLATES)), itertools.product(DTYPES, ["data", "wd", "set"],
+            range(1 if tier == "quick" else len(GRID_TEMPLATES)), itertools.product(DTYPES, ["data", "wd", "set"],
                                                           itertools.product(COMPR, repeat=3))):
         tpl = GRID_TEMPLATES[t]
         create = {"how": how, "fill": "ext", "seed": 2, "pre": False,
@@ -961,13 +972,16 @@ def shards(tier, seed):
     n, per = (16, 38) if tier == "quick" else (64, 470)
     specs = [{"part": "random", "n": per, "seed": seed * 1000 + i} for i in range(n)]
     ngrid = 16
-    specs += [{"part": "grid", "i": i, "of": ngrid, "seed": seed} for i in range(ngrid)]
+    specs += [{"part": "grid", "tier": tier, "i": i, "of": ngrid, "seed": seed} for i in range(ngrid)]
     return specs
 
 
 def run_shard(spec, ctx):
+    # File.close() calls gc.collect(); keep the interpreter's long-lived objects out of every such sweep
+    gc.collect()
+    gc.freeze()
     if spec["part"] == "grid":
-        for k, case in enumerate(grid_cases()):
+        for k, case in enumerate(grid_cases(spec.get("tier", "quick"))):
             if k % spec["of"] == spec["i"]:
                 run_case(case, ctx, part="grid")
         ctx.exhaustive = True
